@@ -8,6 +8,7 @@ package main
 // transcribed from the format description.
 
 import (
+	"regexp"
 	"fmt"
 	"sort"
 	"strings"
@@ -273,6 +274,20 @@ func readerTrace(fa *FuncAn, ops map[string]string, verPat string) []layTok {
 						if dst == "" {
 							dst = "tmp"
 						}
+						// the adjustment depends on the version alone: the block is entered straight from
+						// the version test (a further condition — "only if the count is > 1" — is not the format)
+						direct := false
+						if len(b.Preds) == 1 {
+							if iff, isIf := lastInstr(b.Preds[0]).(*ssa.If); isIf {
+								cd := fa.CondOf(iff)
+								if cd.Kind == "eq" && (fullMatch(verPat, cd.L) || fullMatch(verPat, cd.R)) {
+									direct = true
+								}
+							}
+						}
+						if !direct {
+							dst += "?further-condition"
+						}
 						out = append(out, layTok{Op: map[string]string{"-": "DEC", "+": "INC"}[x.Op.String()], Dst: dst, Guard: g, Pos: fa.W.Pos(InstrPos(in))})
 					}
 				}
@@ -283,8 +298,18 @@ func readerTrace(fa *FuncAn, ops map[string]string, verPat string) []layTok {
 }
 
 // sourceFieldOf names the field a written value comes from.
+var intConvRe = regexp.MustCompile(`^u?int(?:8|16|32|64)?\((.*)\)$`)
+
 func sourceFieldOf(s string) string {
 	s = strings.TrimSpace(s)
+	// a narrowing conversion on the way to the wire is not part of the field's name
+	for {
+		m := intConvRe.FindStringSubmatch(s)
+		if m == nil {
+			break
+		}
+		s = m[1]
+	}
 	if strings.HasPrefix(s, "φ(") && strings.Contains(s, "len(") && strings.Contains(s, ".Components)") {
 		return "count(Components)"
 	}
